@@ -17,8 +17,13 @@
    present.  Purely local steps are merged with the preceding one
    (registration in srv.conns + wg.Add + go; delete from srv.conns + wg.Done).
    A start that fails in serveUDP before the loop (SFailStart) leaves the server
-   unstarted.  Not modelled: restart after Shutdown (Server.init would replace channel and
-   map), Hijack, MaxTCPQueries, handler-initiated Close. *)
+   unstarted.  Restart after Shutdown: a new start once the previous life is over
+   (serve call and every Shutdown / start call returned) begins from the initial
+   state, because Server.init re-creates srv.shutdown and srv.conns and the
+   WaitGroup is local to the serve call (epoch_over, restart, reachable_r,
+   run_lives, accepts_lives at the end of this file).  Not modelled: a start while
+   the previous serve call is still draining, Hijack, MaxTCPQueries,
+   handler-initiated Close. *)
 From Dns Require Export Base.Bytes.
 From Coq Require Export Arith.
 Open Scope nat_scope.
@@ -458,4 +463,76 @@ Definition accepts_red (m : mode) (obs : list label) : nat + option nat :=
   match closure_red closure_fuel [mk_e (init m)] [] with
   | Some cl => accept_red_from closure_fuel cl obs 0
   | None => inr None
+  end.
+
+(* ---- lives of one Server value: start / Shutdown / start again / ...
+   A life is over when the serve call has returned after a Shutdown and every
+   Shutdown and start call has returned.  Server.init, run under the lock by
+   the next successful start, re-creates srv.shutdown and srv.conns; the
+   WaitGroup is a local of the serve call; the caller supplies a new listener /
+   PacketConn.  The next life therefore begins in the initial state. *)
+Definition sd_returned (p : sdpc) : bool := match p with SdDone _ => true | _ => false end.
+Definition st_returned (p : stpc) : bool := match p with StPending | StFailed => false | _ => true end.
+Definition epoch_over (s : state) : bool :=
+  match ph s, serve s with Stopping, SReturned _ => true | _, _ => false end
+  && forallb (fun x => sd_returned (snd x)) (sds s)
+  && forallb (fun x => st_returned (snd x)) (sts s).
+Definition restart (s : state) : state := init (md s).
+
+(* states reachable with any number of restarts *)
+Inductive reachable_r (m : mode) : state -> Prop :=
+| rr_init : reachable_r m (init m)
+| rr_step s l s' : reachable_r m s -> step s l = Some s' -> reachable_r m s'
+| rr_restart s : reachable_r m s -> epoch_over s = true -> reachable_r m (restart s).
+
+(* a history of several lives: each is an execution, all but the last are over *)
+Fixpoint run_lives (s : state) (lives : list (list label)) : option state :=
+  match lives with
+  | [] => Some s
+  | e :: t =>
+    match run s e with
+    | Some s' =>
+      match t with
+      | [] => Some s'
+      | _ :: _ => if epoch_over s' then run_lives (restart s') t else None
+      end
+    | None => None
+    end
+  end.
+
+(* the reduced acceptor, returning the states the log can end in *)
+Fixpoint final_red_from (fuel : nat) (cur : list estate) (obs : list label) (i : nat) : nat + option (list estate) :=
+  match obs with
+  | [] => inr (Some cur)
+  | l :: t =>
+    let next := flat_map (fun e => match step (snd e) l with Some s' => [mk_e s'] | None => [] end) cur in
+    match closure_red fuel next [] with
+    | None => inr None
+    | Some [] => inl i
+    | Some cl => final_red_from fuel cl t (S i)
+    end
+  end.
+Definition final_red (m : mode) (obs : list label) : nat + option (list estate) :=
+  match closure_red closure_fuel [mk_e (init m)] [] with
+  | Some cl => final_red_from closure_fuel cl obs 0
+  | None => inr None
+  end.
+
+(* observed logs of consecutive lives of one Server value: every life must be a
+   behaviour of the LTS from the initial state, and at every restart the
+   previous life must be over in EVERY state its log can end in *)
+Inductive lives_res := LOk | LRej (life idx : nat) | LNotOver (life : nat) | LFuel.
+Fixpoint accepts_lives (m : mode) (lives : list (list label)) (k : nat) : lives_res :=
+  match lives with
+  | [] => LOk
+  | e :: t =>
+    match final_red m e with
+    | inl i => LRej k i
+    | inr None => LFuel
+    | inr (Some fin) =>
+      match t with
+      | [] => LOk
+      | _ :: _ => if forallb (fun x => epoch_over (snd x)) fin then accepts_lives m t (S k) else LNotOver k
+      end
+    end
   end.
